@@ -4,7 +4,7 @@ NOT_APPLICABLE = [
  {"property_id": "C04", "reason": "Gaussian-tail / infinite-series inequality over reals: no discrete or exact-rational core a TLA+ state machine can decide (DESIGN 6)"},
  {"property_id": "C08", "reason": "probability over Gaussian noise realisations (closed form only via the normal CDF); the deterministic second sentence is exercised under C06/C13 (DESIGN 6)"},
 ]
-PENDING = ["C01","C05","C14","C15","C16","C17","C18","C19","C20"]
+PENDING = ["C01","C05","C14","C15","C17","C18","C19","C20"]
 for p in PENDING:
     NOT_APPLICABLE.append({"property_id": p, "reason": "check under construction in this round (planned in DESIGN 5); not yet claimed"})
 
@@ -35,3 +35,7 @@ add("C12", "TLC proves, for every integer cone matrix with entries in -2..2 (2 r
 add("C13", "The mask-and-compact loop of get_pareto_set is model-checked as a state machine for every sequence of <= 4 (thorough 5) vectors on a 3x3 lattice and 5-7 cones (3-facet and non-pointed included): sound, covering, one representative per value, valid/distinct/increasing indices, loop invariants and termination, plus the naive routine's theorem; the dumped table is replayed into both routines (identical index arrays), and random inputs of up to 300 points are compared with the definition.",
     "Lattice 3x3, N <= 4/5 exhaustive; random larger inputs use the reference evaluator's ParetoDef (bound to the TLC table on every run).",
     "TLC model checking of the loop as a state machine + exhaustive table replay", "DESIGN 5 C13")
+
+add("C16", "TLC explores the EmpiricalMeanVarModel state machine (add_sample with every index sequence incl. repeats and out-of-range, update, clear) and checks that predictions change only at update() and to exactly the held data, order-independence of the statistics and non-negative variances; behaviours generated by tlc -simulate with larger constants are replayed operation by operation into the real class with list/tuple/array/set index containers and shuffled queries, comparing predict() with the exact rational statistics of the specification.",
+    "Values from small integer sets (floats exact), 2-4 designs, histories up to 16 operations; negative indices not driven.",
+    "TLC model checking of the model state machine + simulate-behaviour replay into code", "DESIGN 5 C16")
